@@ -187,7 +187,7 @@ func (x *c07Exec) run() {
 }
 
 func checkC07(rep *vk.Report) {
-	rep.Rule = "execution = fresh Timeout (limit 200us/1ms/5ms/20ms) at one of 11 placements relative to retry, fallback, hedge, bulkhead and rate limiter, around a function lasting f x limit (f in 0,.1,.5,.9,.98,1,1.02,1.1,2; busy or cooperative) or blocking until cancelled; yield points around the timer's compare-and-swap perturbed. A transparent probe policy placed directly outside the Timeout gives, per application, a timestamp preceding the timer's start, one following the return, and the returned PolicyResult. Oracles per application: ErrExceeded => t1-t0 >= limit, every listener call and every observed cancellation >= t0+limit, and the function's Execution becomes cancelled; inner result => identical value when the Timeout wraps the function directly, and the Execution stays uncancelled; a function that only returns on cancellation => ErrExceeded. Per execution after limit+60ms grace: listener calls == applications that returned ErrExceeded. Non-trivial: an application that timed out with f<1.05, returned normally with f>0.95, or blocked; distinct by (limit, f, placement, cooperative, async, outcome pattern)."
+	rep.Rule = "execution = fresh Timeout (limit 200us/1ms/5ms/20ms) at one of 11 placements relative to retry, fallback, hedge, bulkhead and rate limiter, around a function lasting f x limit (f in 0,.1,.5,.9,.98,1,1.02,1.1,2; busy or cooperative) or blocking until cancelled; yield points around the timer's compare-and-swap perturbed. A transparent probe policy placed directly outside the Timeout gives, per application, a timestamp preceding the timer's start, one following the return, and the returned PolicyResult. Oracles per application: ErrExceeded => t1-t0 >= limit, every listener call and every observed cancellation >= t0+limit, and the function's Execution becomes cancelled; inner result => identical value when the Timeout wraps the function directly, and the Execution stays uncancelled; a function that only returns on cancellation => ErrExceeded. Per execution after limit+60ms grace: listener calls == applications that returned ErrExceeded. Plus nested scenarios where an inner Timeout's (or the function's own, wrapped) ErrExceeded passes through an outer 1h Timeout: the outer listener stays silent and its execution uncancelled. Non-trivial: an application that timed out with f<1.05, returned normally with f>0.95, or blocked; distinct by (limit, f, placement, cooperative, async, outcome pattern)."
 	rep.Assumptions = []string{
 		"probe policy = the library's own Policy extension point (ToExecutor/Apply); it adds no synchronisation between the Timeout and the function",
 		"R1: only lower bounds on the monotonic clock are asserted; the grace rule relies on a stopped or CAS-losing timer never calling the listener later",
@@ -237,6 +237,13 @@ func checkC07(rep *vk.Report) {
 			}
 		}
 	}
+	nn := scale(rep, 200, 10000)
+	vk.Parallel(nn, 16, func(i int) {
+		if rep.Skip(total + i) {
+			return
+		}
+		c07Nested(rep, total+i)
+	})
 	rep.Extra["timer_callbacks_entered"] = timerEnter.Load()
 	rep.Extra["timer_callbacks_that_won_the_race"] = timerWon.Load()
 	rep.Count("timer_callbacks_that_lost_the_race", timerEnter.Load()-timerWon.Load())
@@ -359,4 +366,47 @@ func c07Judge(rep *vk.Report, x *c07Exec) {
 			rep.Sample(map[string]any{"case": cs, "applications": pattern, "listener_calls": x.listeners.Load(), "function_runs": len(x.fns), "result": fmt.Sprintf("(%d,%v)", x.res, x.err)})
 		}
 	}
+}
+
+// c07Nested: an ErrExceeded that merely passes through a Timeout which has not expired must leave that Timeout's outcome
+// "not exceeded": result unchanged, listener silent, execution not cancelled by it.
+func c07Nested(rep *vk.Report, idx int) {
+	r := vk.Rng(rep.Seed, "C07n", idx)
+	kind := vk.Pick(r, "T(Tshort)", "T(Retry(Tshort))", "T(fn-returns-wrapped-ErrExceeded)", "T(Fallback(Tshort))")
+	L := time.Duration(vk.Pick(r, 300, 1000, 3000)) * time.Microsecond
+	var outerCalls, innerCalls atomic.Int64
+	outer := timeout.Builder[int](time.Hour).OnTimeoutExceeded(func(failsafe.ExecutionDoneEvent[int]) { outerCalls.Add(1) }).Build()
+	inner := timeout.Builder[int](L).OnTimeoutExceeded(func(failsafe.ExecutionDoneEvent[int]) { innerCalls.Add(1) }).Build()
+	var outerExec failsafe.Execution[int]
+	probe := &probePolicy{before: func(e failsafe.Execution[int]) any { outerExec = e; return nil }}
+	var pols []failsafe.Policy[int]
+	wantInner := int64(1)
+	switch kind {
+	case "T(Tshort)":
+		pols = []failsafe.Policy[int]{outer, probe, inner}
+	case "T(Retry(Tshort))":
+		pols = []failsafe.Policy[int]{outer, probe, retrypolicy.Builder[int]().WithMaxRetries(1).Build(), inner}
+		wantInner = 2
+	case "T(Fallback(Tshort))":
+		pols = []failsafe.Policy[int]{outer, probe, fallback.BuilderWithError[int](fmt.Errorf("fb: %w", timeout.ErrExceeded)).Build(), inner}
+	default:
+		pols = []failsafe.Policy[int]{outer, probe}
+		wantInner = 0
+	}
+	_, err := failsafe.NewExecutor[int](pols...).GetWithExecution(func(e failsafe.Execution[int]) (int, error) {
+		if wantInner == 0 {
+			return 0, fmt.Errorf("downstream: %w", timeout.ErrExceeded)
+		}
+		<-e.Canceled()
+		return 0, errE2
+	})
+	time.Sleep(L + 20*time.Millisecond)
+	rep.Eval()
+	cs := map[string]any{"kind": kind, "inner_limit_ns": int64(L)}
+	if !errors.Is(err, timeout.ErrExceeded) || outerCalls.Load() != 0 || innerCalls.Load() != wantInner || (outerExec != nil && outerExec.IsCanceled()) {
+		rep.Violate(idx, "C07/pass-through-timeout-error-treated-as-own", fmt.Sprintf("%s (inner limit %v): result %v, outer (1h) Timeout's listener called %d times (want 0), inner listener %d times (want %d), outer Timeout's execution cancelled=%v", kind, L, err, outerCalls.Load(), innerCalls.Load(), wantInner, outerExec != nil && outerExec.IsCanceled()), cs)
+		return
+	}
+	rep.Count("nested_timeout_scenarios", 1)
+	rep.Distinct(fmt.Sprintf("nested|%s|%d", kind, L))
 }
